@@ -388,6 +388,30 @@ func c05EdgeRows(r *rand.Rand, tier string) []string {
 	return out
 }
 
+// evaluable expressions in both argument positions of the arithmetic predicates
+func c05EvalRows() []string {
+	var out []string
+	for _, p := range c05Procs() {
+		switch p.name {
+		case "is", "=:=", "=\\=", "<", "=<", ">", ">=", "succ":
+		default:
+			continue
+		}
+		if p.arity != 2 {
+			continue
+		}
+		for _, x := range c05ExprShapeNames {
+			xi := c05ShapeIdx[x]
+			for _, other := range []string{"var", "int1", "float"} {
+				oi := c05ShapeIdx[other]
+				out = append(out, c05Case(p, []int{oi, xi}), c05Case(p, []int{xi, oi}))
+			}
+			out = append(out, c05Case(p, []int{xi, xi}))
+		}
+	}
+	return out
+}
+
 // interpreters made by prolog.New(nil, nil) (README: "if you don't need user_input/user_output")
 func c05NilRows() []string {
 	var out []string
@@ -433,6 +457,7 @@ func genC05Matrix(r *rand.Rand, n int, tier string) []string {
 		}
 	}
 	add(c05IntRows(r, tier))
+	add(c05EvalRows())
 	add(c05EdgeRows(r, tier))
 	if tier == "thorough" || n <= 0 || n >= len(big) {
 		add(big)
